@@ -39,6 +39,7 @@ pub fn exec(op: &str, args: &[&str]) -> String {
         "elg" => enc::op_elg(args),
         "ae" => enc::op_ae(args),
         "dlog" | "dlogsearch" => enc::op_dlog(args),
+        "dlogseq" => enc::op_dlogseq(args),
         "kdf" => kdf::op_kdf(args),
         "fresh" => fresh::op_fresh(args),
         "drop" => secrets::op_drop(args),
